@@ -21,7 +21,6 @@ pub struct Arena {
     pub ptr: *mut u8,
     pub len: usize,
     pub place: Place,
-    #[allow(dead_code)]
     miri_layout: Option<std::alloc::Layout>,
 }
 
@@ -36,6 +35,13 @@ fn canary(off: usize) -> u8 {
 impl Arena {
     #[cfg(not(miri))]
     pub fn new(len: usize, place: Place) -> Arena {
+        use std::sync::OnceLock;
+        static HEAP: OnceLock<bool> = OnceLock::new();
+        // under AddressSanitizer the orchestrator selects plain heap allocations (exact size for
+        // L/R placements) so that ASan's red zones are the out-of-bounds oracle
+        if *HEAP.get_or_init(|| std::env::var("VMV_ARENA").map_or(false, |v| v == "heap")) {
+            return Arena::new_heap(len, place);
+        }
         let need = len + 2 * MARGIN + 32;
         let data_pages = need.div_ceil(PAGE).max(1);
         let data_len = data_pages * PAGE;
@@ -88,6 +94,10 @@ impl Arena {
 
     #[cfg(miri)]
     pub fn new(len: usize, place: Place) -> Arena {
+        Arena::new_heap(len, place)
+    }
+
+    pub fn new_heap(len: usize, place: Place) -> Arena {
         let (data_len, off) = match place {
             Place::L | Place::R => (len.max(1), 0),
             Place::C(m) => (len + 2 * MARGIN + 32, MARGIN + (m % 16)),
@@ -175,15 +185,15 @@ impl Arena {
 
 impl Drop for Arena {
     fn drop(&mut self) {
+        if let Some(layout) = self.miri_layout {
+            // SAFETY: same layout as in new_heap().
+            unsafe { std::alloc::dealloc(self.map_base, layout) };
+            return;
+        }
         #[cfg(not(miri))]
         // SAFETY: unmapping what new() mapped.
         unsafe {
             libc::munmap(self.map_base as *mut _, self.map_len);
-        }
-        #[cfg(miri)]
-        // SAFETY: same layout as in new().
-        unsafe {
-            std::alloc::dealloc(self.map_base, self.miri_layout.unwrap());
         }
     }
 }
